@@ -7,6 +7,10 @@ hook_commits = subprocess.run(['git','-C','/repo','log','--format=%H','--grep=^v
 
 # id -> (technique, level text, level_note, design_ref)
 CLAIMED = {
+ "C01": ("rapid property-based testing / grammar-based fuzzing: generated programs over the whole syntax, token mutations and raw bytes, judged by a crash/diagnostic/VM-idle-state oracle",
+         "Generated-input search over source texts (<=64 KiB, nesting <=200) in three layers - grammar programs over every production incl. deep nesting, token-level mutations, raw bytes with malformed UTF-8 - each in strict/sloppy and global/function/eval/new Function placement, through Parse, Compile and Run. Oracle: only documented error kinds come back, no Go panic reaches the harness, no 'Compiler bug' diagnostic, err.Error() itself does not panic, and after the run the VM registers are idle (operand stack at 0, call/try/iterator/reference stacks empty, global scope, no pending jobs) and the runtime still runs 1+1. A process death (fatal error) is attributed to the case in flight by the driver.",
+         "Trusted: the hook accessor VerifVMState (read-only); the 150 ms interrupt watchdog (can only lose detections). Inputs that do not terminate inside a non-interruptible built-in are counted inconclusive. Evidence by search: crashes that need inputs outside the generators' reach are not excluded.",
+         "DESIGN.md 4/C01"),
  "C05": ("rapid property-based testing: backward-constructed expression-tree pairs + conversion sites against an exact float64/math-big oracle",
          "Generated-input search: 160k pairs of expression trees built backwards from a target double (so the oracle value is known exactly) are compared through 45 observers (Object.is both ways, ===, switch, Map/Set, includes/indexOf, property keys, String, typed-array and array indexing, Export type); 160k operand x conversion-site cases (118 sites: bit ops, all typed-array/DataView stores, ToIntegerOrInfinity/ToIndex/ToLength users, ExportTo of every Go numeric type) are compared with numref. Evidence by search, not proof; shrinking yields a minimal replay file.",
          "Trusted: Go float64 arithmetic and math/big; numref (written from ECMA-262, independent of goja); strconv shortest formatting for Number::toString of the oracle. Math functions with implementation-approximated results are used only where the result is exactly specified (integral powers with exact results are demanded exactly).",
